@@ -12,7 +12,7 @@ namespace PM
 theorem delete_around_shape (S : Schema) (doc : Node) (f t : Nat) (hv : S.checkNode doc = true)
     (F T G1 G2 : Nat) (sl : Slice) (ins : Nat) (b : Bool)
     (h : replaceStep S doc f t Slice.empty = .ok (some (.replaceAround F T G1 G2 sl ins b))) :
-    ins = 0 ∧ ∃ rt, doc.resolve t = some rt ∧ G1 = rt.pos ∧ G2 = rt.end_ rt.depth := by
+    ins = 0 ∧ b = false ∧ ∃ rt, doc.resolve t = some rt ∧ G1 = rt.pos ∧ G2 = rt.end_ rt.depth := by
   unfold replaceStep at h
   split at h
   · simp [pure, Except.pure] at h
@@ -48,8 +48,8 @@ theorem delete_around_shape (S : Schema) (doc : Node) (f t : Nat) (hv : S.checkN
             · simp [throw, throwThe, MonadExceptOf.throw] at h
             · have := pure_ok h
               simp only [Option.some.injEq, Step.replaceAround.injEq] at this
-              obtain ⟨_, _, e3, e4, _, e6, _⟩ := this
-              refine ⟨?_, rt, ht, e3.symm, e4.symm⟩
+              obtain ⟨_, _, e3, e4, _, e6, e7⟩ := this
+              refine ⟨?_, e7.symm, rt, ht, e3.symm, e4.symm⟩
               rw [← e6, hlen, hsz]
               simp only [Nat.add_sub_cancel]
               omega
@@ -218,5 +218,99 @@ theorem insertAt_zero_openValid (S : Schema) (sl ins : Slice) (gap : List Node) 
     exact insertInto_zero_openValid S gap hg _ _ _ c hwf hv hc
   · simp at h
   · simp at h
+
+/-! ### the gap `[to, to.end())` of a valid document is a closed slice of valid nodes -/
+
+/-- the prefix balance inside the content window of the parent: the balance at the window's start plus the
+    depth inside the parent's content -/
+theorem balance_in_window {doc : Node} {t : Nat} {rt : RPos} (R : Resolved doc t rt) (j : Nat)
+    (hj : j ≤ fsize (rt.node rt.depth).kids) :
+    balance ((ftoks doc.kids).take (rt.start rt.depth + j)) =
+      balance ((ftoks doc.kids).take (rt.start rt.depth)) + (depthAt (rt.node rt.depth).kids j : Int) := by
+  have hw := R.window_kids rt.depth (Nat.le_refl _)
+  have h1 : ((ftoks doc.kids).drop (rt.start rt.depth)).take j = (ftoks (rt.node rt.depth).kids).take j := by
+    rw [← hw, List.take_take, Nat.min_eq_left hj]
+  rw [List.take_add, balance_append, h1, depthAt_balance _ _ hj]
+
+theorem parent_offset_flat {doc : Node} {t : Nat} {rt : RPos} (R : Resolved doc t rt) :
+    depthAt (rt.node rt.depth).kids (t - rt.start rt.depth) = 0 := by
+  have E := R.entry rt.depth (Nat.le_refl _)
+  have hpe : (rt.entry rt.depth).pos = rt.start rt.depth + fsize ((rt.node rt.depth).kids.take (rt.index rt.depth)) :=
+    E.pos_eq
+  have hle := E.pos_le
+  have hsplit : (rt.node rt.depth).kids =
+      (rt.node rt.depth).kids.take (rt.index rt.depth) ++ (rt.node rt.depth).kids.drop (rt.index rt.depth) :=
+    (List.take_append_drop _ _).symm
+  have hoff : t - rt.start rt.depth =
+      fsize ((rt.node rt.depth).kids.take (rt.index rt.depth)) + (t - (rt.entry rt.depth).pos) := by omega
+  rw [hoff]
+  conv => lhs; arg 1; rw [hsplit]
+  rw [depthAt_append_pre]
+  rcases R.last with h0 | ⟨s, m, hget, hlt⟩
+  · rw [← h0]; simp
+  · have hget' : (rt.node rt.depth).kids[rt.index rt.depth]? = some (.text s m) := hget
+    have hlen : rt.index rt.depth < (rt.node rt.depth).kids.length := by
+      rcases Nat.lt_or_ge (rt.index rt.depth) (rt.node rt.depth).kids.length with h | h
+      · exact h
+      · rw [List.getElem?_eq_none h] at hget'; simp at hget'
+    rw [List.drop_eq_getElem_cons hlen]
+    have : (rt.node rt.depth).kids[rt.index rt.depth] = .text s m := by
+      rw [List.getElem?_eq_getElem hlen] at hget'
+      simpa using hget'
+    rw [this]
+    exact depthAt_nonelem_cons _ _ _ (by simpa using hlt) (by intro ty a m' k h; cases h)
+
+/-- **the gap `[to, to.end())`**: the slice from a position to the end of its parent is closed, and on a valid
+    document its nodes are valid -/
+theorem gap_to_end_valid (S : Schema) {doc : Node} {t : Nat} {rt : RPos} (ht : doc.resolve t = some rt)
+    (hv : S.checkNode doc = true) (gap : Slice) (h : doc.slice rt.pos (rt.end_ rt.depth) = .ok gap) :
+    S.checkKids gap.content = true := by
+  have R := resolve_resolved ht
+  have hov := slice_openValid S doc _ _ gap hv h
+  rw [R.pos_eq] at h
+  have hpin := R.pos_in rt.depth (Nat.le_refl _)
+  by_cases hft : t = rt.end_ rt.depth
+  · unfold Node.slice sliceKids at h
+    rw [if_pos hft] at h
+    simp only [Except.ok.injEq] at h
+    subst h
+    simp [Slice.empty]
+  · have hend : rt.end_ rt.depth ≤ fsize doc.kids := (R.end_le_size rt.depth (Nat.le_refl _)).1
+    have spec := sliceKids_spec doc.kids t (rt.end_ rt.depth) gap (by omega) hend h
+    obtain ⟨sh, h1, h2, h3, k, hk1, hk2, hk3⟩ := spec.opens
+    -- balances
+    have hB := fun j hj => balance_in_window R j hj
+    have hflat := parent_offset_flat R
+    have hd1 := depthAt_balance doc.kids t R.le
+    have hd2 := depthAt_balance doc.kids (rt.end_ rt.depth) hend
+    have e1 := hB (t - rt.start rt.depth) (by rw [Resolved.end_eq] at hpin; omega)
+    rw [show rt.start rt.depth + (t - rt.start rt.depth) = t by omega, hflat] at e1
+    have e2 := hB (fsize (rt.node rt.depth).kids) (Nat.le_refl _)
+    rw [depthAt_fsize] at e2
+    have e3 := hB (k - rt.start rt.depth) (by rw [Resolved.end_eq] at hk2; omega)
+    rw [show rt.start rt.depth + (k - rt.start rt.depth) = k by omega] at e3
+    rw [Resolved.end_eq] at hd2 h2
+    have hos : gap.openStart = 0 := by omega
+    have hoe : gap.openEnd = 0 := by omega
+    rw [hos, hoe] at hov
+    simpa [openValid, rightOpenValid] using hov
+
+/-- **the payload of a deletion's replace-around answer is valid** in the sense of C01: the slice with the gap
+    content in place is a valid payload -/
+theorem delete_around_payload (S : Schema) (hdet : DetS S) (hleaf : PM.FromDom.LeafOk S) (doc : Node) (f t : Nat)
+    (hv : S.checkNode doc = true) (hattrs : S.nodeAttrsOK doc = true) (F T G1 G2 : Nat) (sl : Slice) (ins : Nat)
+    (b : Bool) (h : replaceStep S doc f t Slice.empty = .ok (some (.replaceAround F T G1 G2 sl ins b))) :
+    ∀ gap res, doc.slice G1 G2 = .ok gap → sl.insertAt S ins gap.content = .ok (some res) →
+      openValid S res.openStart res.openEnd res.content = true := by
+  intro gap res hgap hres
+  obtain ⟨hi, _, rt, hrt, e1, e2⟩ := delete_around_shape S doc f t hv F T G1 G2 sl ins b h
+  subst hi; subst e1; subst e2
+  obtain ⟨sl', hs, hval⟩ := replaceStep_empty_valid S hdet hleaf doc f t hv hattrs _ h
+  simp only [Step.sliceOf, Option.some.injEq] at hs
+  subst hs
+  obtain ⟨sl'', hs2, hleft, _⟩ := replaceStep_wf_left S doc f t Slice.empty _ (by decide) h
+  simp only [Step.sliceOf, Option.some.injEq] at hs2
+  subst hs2
+  exact insertAt_zero_openValid S sl res gap.content (gap_to_end_valid S hrt hv gap hgap) hleft hval hres
 
 end PM
